@@ -245,6 +245,16 @@ func c02Main(r *engine.Run) {
 		r.Bound(fmt.Sprintf("all %d² ordered pairs of the 6×6 holes family", m))
 	}
 	r.Sample("pair", pairCase{A: hf[0].WKT, B: hf[4].WKT})
+	{
+		lvl := 0
+		if r.Thorough() {
+			lvl = 1
+		}
+		cp := ConcurrentPairs(lvl)
+		if r.Parallel(len(cp), func(k int) { c02Pair(r, cp[k][0], cp[k][1], k%4 == 0) }) {
+			r.Bound(fmt.Sprintf("concurrent family: %d pairs with three edge interiors through one non-vertex lattice point", len(cp)))
+		}
+	}
 	// chained: results of the set operations (single geometries or collections of pairwise
 	// disjoint members) related to every operand of a reduced alphabet, clearance permitting
 	{
